@@ -6,9 +6,9 @@ from sqlglot import exp
 
 # matches a variable reference (group 1 is its name), or text in which a $ is not a reference and a quote does not
 # open a string: a comment (-- .. or /* .. */), a string literal ('..' with '' or backslash escapes, or $$..$$) or a
-# quoted identifier
+# quoted identifier; a $ inside an identifier (col$x) or before a digit ($1, a positional column) is not a reference either
 _REFERENCE_OR_QUOTED = re.compile(
-    r"""--[^\n]*|/\*.*?\*/|'(?:[^'\\]|''|\\.)*'|\$\$.*?\$\$|"(?:[^"]|"")*"|(?<!\$)\$(\w+)""", re.DOTALL
+    r"""--[^\n]*|/\*.*?\*/|'(?:[^'\\]|''|\\.)*'|\$\$.*?\$\$|"(?:[^"]|"")*"|(?<![\w$])\$([A-Za-z_]\w*)""", re.DOTALL
 )
 
 
